@@ -131,7 +131,7 @@ def _get_intervals(bt, infinite_x=False):
 for _bt in BIN_TYPES:
     for infinite_x in (False, True):
         s, c, p = _get_intervals(_bt, infinite_x)
-        register(Obligation("verif.util.get_intervals#POST:%s%s" % (_bt, "[x=+-inf]" if infinite_x else ""), ("C07", "C12", "C06"),
+        register(Obligation("verif.util.get_intervals#POST:%s%s" % (_bt, "[x=+-inf]" if infinite_x else ""), ("C07", "C12", "C06", "C13"),
                             s, c, p, modules=MOD, functions=["verif.util.get_intervals"]))
 
 
